@@ -39,8 +39,13 @@ impl FunctionInliner {
 
     fn collect_functions(&mut self, program: &TypedProgram) {
         self.functions.clear();
+        // calls are matched by name: a function whose name is also bound elsewhere
+        // (redefined, or shadowed by a local, parameter or loop variable) is left alone
+        let binders = crate::passes::binders::count_binders(&program.stmts);
         for stmt in &program.stmts {
-            if let TypedStmtKind::Function(f) = &stmt.kind {
+            if let TypedStmtKind::Function(f) = &stmt.kind
+                && crate::passes::binders::is_bound_once(&binders, &f.name)
+            {
                 self.functions.insert(f.name.clone(), f.clone());
             }
         }
